@@ -945,7 +945,7 @@ fn gen_c03(rng: &mut Rng, seed: u64, index: u64, long: bool) -> Scenario {
     // item budgets: a mask computation cut short by step_max_items / max_items_in_row has to end in the
     // documented limit stop, never in an empty mask / 'no extension' (small values: the budget has
     // to run out in the middle of ordinary steps, at every possible item count)
-    let items_limit = rng.chance(0.15);
+    let items_limit = rng.chance(0.25);
     if items_limit {
         if rng.chance(0.8) {
             world.limits.step_max_items = rng.log_uniform(2, 600) as usize;
